@@ -16,17 +16,22 @@ from ..tlc import TLCError
 
 # violation keys of behaviour modelled beyond the statement of the property (reported, never an alarm)
 BEYOND = ("from-parities:", "concatenate:")
-INV = ["MechanismEqualsDefinition", "ConstantContributesCoefficient", "CountsSumToShots", "TalliesSumToShots", "MeanFromTallies", "TallyValueIsMean", "PrecisionBounded", "EmitStats"]
+INV = ["MechanismEqualsDefinition", "ConstantContributesCoefficient", "CountsSumToShots", "TalliesSumToShots", "PairTalliesAreProductTallies", "MeanFromTallies", "TallyValueIsMean", "PrecisionBounded", "EmitStats"]
 
 
 def fr(q):
     return Fraction(q[0], q[1])
 
 
-def real_op(op):
+def real_op(op, ints=False):
+    """ints: coefficients that are whole numbers are given as Python ints (an operator may be typed that way by a caller)"""
     from orquestra.quantum.operators import PauliSum, PauliTerm
 
-    return PauliSum([PauliTerm({q: "Z" for q in t["sup"]}, float(fr(t["c"]))) for t in op])
+    def coef(c):
+        f = fr(c)
+        return int(f) if ints and f.denominator == 1 else float(f)
+
+    return PauliSum([PauliTerm({q: "Z" for q in t["sup"]}, coef(t["c"])) for t in op])
 
 
 def check_case(ctx, c):
@@ -54,6 +59,14 @@ def check_case(ctx, c):
         out.append(("correlations", "%s: correlations %s, sample means of products %s" % (desc, np.asarray(ev.correlations[0]).real.tolist(), corr.tolist())))
     if np.max(np.abs(np.asarray(ev.estimator_covariances[0]) - cov)) > tol:
         out.append(("covariances", "%s: covariances %s, (corr - mean*mean)/N = %s" % (desc, np.asarray(ev.estimator_covariances[0]).real.tolist(), cov.tolist())))
+    if all(fr(t["c"]).denominator == 1 for t in c["op"]):
+        evi = m.get_expectation_values(real_op(c["op"], ints=True))
+        if (
+            any(abs(complex(evi.values[i]) - means[i]) > tol for i in range(k))
+            or np.max(np.abs(np.asarray(evi.correlations[0]) - corr)) > tol
+            or np.max(np.abs(np.asarray(evi.estimator_covariances[0]) - cov)) > tol
+        ):
+            out.append(("int-coefficients", "%s with the coefficients given as Python ints: values %s correlations %s covariances %s, specification %s / %s / %s" % (desc, list(evi.values), np.asarray(evi.correlations[0]).real.tolist(), np.asarray(evi.estimator_covariances[0]).real.tolist(), means, corr.tolist(), cov.tolist())))
     if N >= 2:
         covb = np.array([[float(fr(x)) for x in row] for row in c["covb"]])
         evb = m.get_expectation_values(op, use_bessel_correction=True)
@@ -83,6 +96,10 @@ def check_case(ctx, c):
     tallies = [list(t) for t in c["tallies"]]
     if np.asarray(par.values).tolist() != tallies:
         out.append(("parities", "%s: parity tallies %s, specification %s" % (desc, np.asarray(par.values).tolist(), tallies)))
+    pt = np.array(c["pairtallies"], dtype=float)
+    gotpt = np.asarray(par.correlations[0], dtype=float) if par.correlations else None
+    if gotpt is None or gotpt.shape != pt.shape or np.max(np.abs(gotpt - pt)) > 0:
+        out.append(("parities:pairs", "%s: tallies of pairs of terms %s, shots with equal / different parity %s" % (desc, None if gotpt is None else gotpt.tolist(), pt.tolist())))
     # expectation values recomputed from the tallies (few samples, and the same tallies scaled to many samples), concatenation
     from orquestra.quantum.measurements import Parities, concatenate_expectation_values, get_expectation_values_from_parities
 
@@ -117,6 +134,48 @@ def check_case(ctx, c):
                 out.append(("check_parity", "check_parity(%s, %s) wrong" % (s, t["sup"])))
             if t["sup"] and bool(check_parity_of_vector(np.array([s]), t["sup"])[0]) != even:
                 out.append(("check_parity_of_vector", "check_parity_of_vector(%s, %s) wrong" % (s, t["sup"])))
+    return out
+
+
+def check_history(ctx, h):
+    """ONE Measurements object lives through the whole behaviour shots[1..n] of the specification: statistics are read in
+    every state (they may be cached), shots arrive through add_counts one at a time or through the bitstring list"""
+    from orquestra.quantum.measurements import Measurements
+
+    out = []
+    states = h["states"]  # the specification's state after 1, 2, ... shots (statistics included)
+    op = real_op(h["op"])
+    for mode in ("add_counts", "append", "bulk-then-add"):
+        m = Measurements()
+        hist = []
+        for n, c in enumerate(states, start=1):
+            shot = tuple(c["stats"][-1])
+            text = "".join(map(str, shot))
+            if mode == "add_counts" or (mode == "bulk-then-add" and n > 1):
+                m.add_counts({text: 1})
+                hist.append("add_counts({%r: 1})" % text)
+            else:
+                m.bitstrings.append(shot) if mode == "append" else m.add_counts({text: 1})
+                hist.append("bitstrings.append(%s)" % (shot,))
+            want = {"".join(map(str, e["t"])): e["n"] for e in c["counts"]}
+            desc = "one Measurements object after [%s]" % ", ".join(hist)
+            counts = m.get_counts()
+            if counts != want or sum(counts.values()) != n or len(m.bitstrings) != n:
+                out.append(("history:counts", "%s: counts %s, specification %s" % (desc, counts, want)))
+                break
+            dist = {"".join(map(str, k_)): v for k_, v in m.get_distribution().distribution_dict.items()}
+            if set(dist) != set(want) or any(abs(dist[k_] - want[k_] / n) > 1e-12 for k_ in want):
+                out.append(("history:distribution", "%s: empirical distribution %s, counts/N %s" % (desc, dist, {k_: v / n for k_, v in want.items()})))
+                break
+            ev = m.get_expectation_values(op)
+            means = [float(fr(x)) for x in c["means"]]
+            corr = np.array([[float(fr(x)) for x in row] for row in c["corr"]])
+            if any(abs(complex(ev.values[i]) - means[i]) > 1e-12 for i in range(len(means))) or np.max(np.abs(np.asarray(ev.correlations[0]) - corr)) > 1e-12:
+                out.append(("history:expectation", "%s: expectation values %s / correlations %s, specification %s / %s" % (desc, list(ev.values), np.asarray(ev.correlations[0]).real.tolist(), means, corr.tolist())))
+                break
+            if m.get_counts() != want:
+                out.append(("history:counts-after-read", "%s: reading statistics changed the counts" % desc))
+                break
     return out
 
 
@@ -190,6 +249,23 @@ def run(ctx):
         ctx.count({"k": "stats", "shots": c["stats"], "op": c["op"]}, kind="W=%d" % len(c["stats"][0]))
         for key, msg in fails:
             ctx.violation(key, msg, c)
+    # behaviours on ONE persistent object: every maximal shot sequence of the specification, with the states along it
+    index = {json.dumps([c["stats"], c["op"]], sort_keys=True): c for c in cases}
+    hists = []
+    for c in cases:
+        if len(c["stats"]) >= 3:
+            states = [index.get(json.dumps([c["stats"][:n], c["op"]], sort_keys=True)) for n in range(1, len(c["stats"]) + 1)]
+            if all(x is not None for x in states) and len(set(map(tuple, c["stats"]))) < len(c["stats"]):   # some outcome repeats
+                hists.append({"k": "history", "op": c["op"], "states": states})
+    rng = random.Random(ctx.seed + 11)
+    if len(hists) > (1500 if quick else 15000):
+        hists = rng.sample(hists, 1500 if quick else 15000)
+    if len(hists) < 200:
+        raise TLCError("only %d behaviours with a repeated outcome assembled" % len(hists))
+    for h, fails in zip(hists, ctx.pmap(check_history, hists, chunksize=32)):
+        ctx.count({"k": "history", "shots": h["states"][-1]["stats"], "op": h["op"]}, kind="behaviour on one persistent object")
+        for key, msg in fails:
+            ctx.violation(key, msg, h)
     by_w = record_traces(ctx, ctx.tmp, 150 if quick else 1500)
     for w, events in sorted(by_w.items()):
         path = os.path.join(ctx.tmp, "stats-%d.ndjson" % w)
@@ -211,6 +287,11 @@ def replay(ctx, case):
     if case.get("k") == "trace":
         by_w = record_traces(ctx, ctx.tmp, 150)
         ctx.count({"k": "traces"})
+        return
+    if case.get("k") == "history":
+        ctx.count({"k": "history"})
+        for key, msg in check_history(ctx, case):
+            ctx.violation(key, msg, case)
         return
     ctx.count({"k": "stats", "shots": case["stats"]})
     for key, msg in check_case(ctx, case):
